@@ -22,7 +22,10 @@
      (k, Some (KRef, c))    ClassReference with _ty = the class c
      (k, Some (KArr, c))    Array with items = ClassReference(c);   KSet: Set with items = ClassReference(c)
    `aggregated_mapper_by_class` is a memo table: the translator treats it as TRANSPARENT (see the notes in
-   Gen/MappersSrc.v), so the theorems are about what the body computes.
+   Gen/MappersSrc.v), so the theorems are about what the body computes (an edit of the memo KEY is not seen).
+   get_flat_resolved_mapper has no counterpart in Ser/Mappers.v; it is tied to the model's [apply_key]
+   (document key of field k = apply_key m k, [flat_model]) for a class that carries one mapper.
+   Recursive functions get as fuel one more than the summed height of their arguments (proved sufficient here).
    The hand model is a model of ASCII text and of real dicts (unique keys): the side condition [mval_wf] says so. *)
 From Coq Require Import ZArith QArith NArith String Ascii Bool Lia List.
 Import ListNotations.
@@ -510,6 +513,16 @@ Proof.
   reflexivity.
 Qed.
 
+Lemma slice_drop8' (k : pystr) :
+  str_endswith k suffix = true -> slice_list None (Some (-8)%Z) k = firstn (length k - 8) k.
+Proof.
+  unfold str_endswith. change (length suffix) with 8%nat. intros H.
+  apply andb_true_iff in H as [H _]. apply Nat.leb_le in H.
+  unfold slice_list, clamp. change (-8 <? 0)%Z with true. cbv iota. cbn [skipn].
+  replace (Z.to_nat (Z.max 0 (Z.of_nat (length k) + -8)) - 0)%nat with (length k - 8)%nat by lia.
+  reflexivity.
+Qed.
+
 Lemma ascii_firstn n s : ascii_str s = true -> ascii_str (firstn n s) = true.
 Proof.
   revert n. induction s as [|c t IH]; intros n H; destruct n; try reflexivity.
@@ -611,7 +624,7 @@ Proof.
     destruct (amap_wf_in prev k v Hp Hin) as [Hk Hv].
     rewrite (shortcut_enc latest k v Hl). cbn [bind add_step].
     destruct (shortcut latest k v).
-    + rewrite py_dict_get_enc, Hget. cbn [bind]. rewrite py_setitem_enc. reflexivity.
+    + rewrite ?py_dict_get_enc, ?Hget. cbn [bind]. rewrite py_setitem_enc. reflexivity.
     + rewrite is_donot_enc. cbn [bind].
       destruct v as [s| |p]; cbn [is_donot].
       * (* a str: _apply_mapper *)
@@ -625,7 +638,7 @@ Proof.
         change (py_str_endswith (PStr k) (PStr (s2p "._mapper"))) with (@Ok bool (str_endswith k suffix)).
         rewrite ends_with_suffix_spec. cbn [py_not bind].
         destruct (str_endswith k suffix) eqn:Eend; cbn [negb]; [|reflexivity].
-        cbn [py_neg zint bind py_slice slice_index]. change (- (8))%Z with (-8)%Z. rewrite (slice_drop8 k Eend).
+        cbn [py_neg zint bind py_slice slice_index]. change (- (8))%Z with (-8)%Z. first [rewrite (slice_drop8 k Eend)|rewrite (slice_drop8' k Eend)].
         set (fname := firstn (length k - 8) k).
         assert (Hfn : ascii_str fname = true) by (apply ascii_firstn; exact Hk).
         pose proof (height_enc_in k (Sub p) prev Hin) as Hlt. rewrite enc_mval_sub in Hlt.
@@ -1420,6 +1433,92 @@ Example class_wf_satisfiable :
   /\ override_wf (Some [(s2p "i", Key (s2p "x")); (s2p "sub._mapper", Sub [(s2p "in_x", Key (s2p "y"))])]) = true.
 Proof. split; vm_compute; reflexivity. Qed.
 
+(* ------------------------------------------------------------------ get_flat_resolved_mapper *)
+
+(* the class as get_flat_resolved_mapper sees it: it may carry _serialization_mapper and / or
+   _deserialization_mapper (a single mapper each), and answers get_all_fields_by_name() *)
+Definition flat_attrs (sm dm : option mapper) (fields : list pystr) (fobj : pystr -> pyval) : list (pystr * pyval) :=
+  (match sm with Some m => [(s2p "_serialization_mapper", enc_mapper m)] | None => [] end) ++
+  (match dm with Some m => [(s2p "_deserialization_mapper", enc_mapper m)] | None => [] end) ++
+  [(s2p "get_all_fields_by_name()", PDict (map (fun k => (PStr k, fobj k)) fields))].
+Definition flat_cls sm dm fields fobj : pyval := PStruct (s2p "StructMeta") (flat_attrs sm dm fields fobj).
+
+(* getattr(cls, "_deserialization_mapper", getattr(cls, "_serialization_mapper", {})) *)
+Definition flat_effective (sm dm : option mapper) : mapper :=
+  match dm with Some m => m | None => match sm with Some m => m | None => MDict [] end end.
+
+(* document key -> field name, in the vocabulary of the C07 model: the key of field k is apply_key m k *)
+Definition flat_key (m : mapper) (k : pystr) : pystr := match apply_key m k with Key s => s | _ => k end.
+Definition flat_model (m : mapper) (fields : list pystr) : amap :=
+  fold_left (fun acc k => alist_set acc (flat_key m k) (Key k)) fields [].
+Definition flat_ok (m : mapper) (fields : list pystr) : bool :=
+  mapper_wf m && forallb (fun k => ascii_str k && is_key (apply_key m k)) fields.
+
+Example flat_ok_satisfiable :
+  flat_ok (MDict [(s2p "a", Key (s2p "x"))]) [s2p "a"; s2p "b_c"] = true /\ flat_ok MCamel [s2p "a"; s2p "b_c"] = true /\
+  flat_model MCamel [s2p "a"; s2p "b_c"] = [(s2p "a", Key (s2p "a")); (s2p "bC", Key (s2p "b_c"))].
+Proof. repeat split; vm_compute; reflexivity. Qed.
+
+Lemma foldM_flat (F : pyval -> pyval -> res pyval) m fields : forall acc,
+    (forall acc k, In k fields -> F (enc_amap acc) (PStr k) = Ok (enc_amap (alist_set acc (flat_key m k) (Key k)))) ->
+    foldM F (map PStr fields) (enc_amap acc)
+    = Ok (enc_amap (fold_left (fun acc k => alist_set acc (flat_key m k) (Key k)) fields acc)).
+Proof.
+  induction fields as [|k t IH]; intros acc HF; [reflexivity|].
+  cbn [map foldM fold_left]. rewrite (HF acc k (or_introl eq_refl)). cbn [bind].
+  apply IH. intros acc' k' Hin. apply HF. right. exact Hin.
+Qed.
+
+Theorem src_get_flat_resolved_mapper : forall h sm dm fields fobj,
+    flat_ok (flat_effective sm dm) fields = true ->
+    Src_get_flat_resolved_mapper h (flat_cls sm dm fields fobj)
+    = Ok (enc_amap (flat_model (flat_effective sm dm) fields)).
+Proof.
+  intros h sm dm fields fobj Hok. unfold flat_ok in Hok. apply andb_true_iff in Hok as [Hm Hfs].
+  unfold Src_get_flat_resolved_mapper.
+  assert (E1 : (t2 <- PyOpsFields.fld_getattr_def h (flat_cls sm dm fields fobj) (s2p "_serialization_mapper") (PDict []) ;;
+                PyOpsFields.fld_getattr_def h (flat_cls sm dm fields fobj) (s2p "_deserialization_mapper") t2)
+               = Ok (enc_mapper (flat_effective sm dm))).
+  { destruct sm as [m1|]; destruct dm as [m2|]; reflexivity. }
+  assert (E2 : PyOpsFields.fld_getattr h (flat_cls sm dm fields fobj) (s2p "get_all_fields_by_name()")
+               = Ok (PDict (map (fun k => (PStr k, fobj k)) fields))).
+  { destruct sm as [m1|]; destruct dm as [m2|]; reflexivity. }
+  set (m := flat_effective sm dm) in *.
+  destruct (PyOpsFields.fld_getattr_def h (flat_cls sm dm fields fobj) (s2p "_serialization_mapper") (PDict [])) as [t2|e2];
+    cbn [bind] in E1 |- *; [|discriminate].
+  rewrite E1. cbn [bind]. cbv zeta. rewrite E2. cbn [bind py_iter]. rewrite map_map. cbn [fst].
+  change (PDict []) with (enc_amap []).
+  rewrite (foldM_flat _ m fields []).
+  - reflexivity.
+  - intros acc k Hin. cbn beta.
+    rewrite forallb_forall in Hfs. specialize (Hfs k Hin). apply andb_true_iff in Hfs as [Hk Hkey].
+    unfold flat_key.
+    destruct m as [d| |].
+    + change (m_is_member (enc_mapper (MDict d)) (s2p "mappers") (s2p "TO_CAMELCASE")) with (@Ok bool false).
+      change (m_is_member (enc_mapper (MDict d)) (s2p "mappers") (s2p "TO_LOWERCASE")) with (@Ok bool false).
+      cbn [bind enc_mapper]. rewrite py_dict_get_enc. cbn [bind]. cbn [apply_key] in Hkey |- *.
+      destruct (alist_get d k) as [[s| |q]|]; try discriminate; cbn [bind enc_mval];
+        rewrite (py_setitem_enc acc _ (Key k)); reflexivity.
+    + change (m_is_member (enc_mapper MLower) (s2p "mappers") (s2p "TO_CAMELCASE")) with (@Ok bool false).
+      change (m_is_member (enc_mapper MLower) (s2p "mappers") (s2p "TO_LOWERCASE")) with (@Ok bool true).
+      cbn [bind]. rewrite (m_str_upper_ascii k Hk). cbn [bind apply_key].
+      rewrite (py_setitem_enc acc _ (Key k)). reflexivity.
+    + change (m_is_member (enc_mapper MCamel) (s2p "mappers") (s2p "TO_CAMELCASE")) with (@Ok bool true).
+      cbn [bind]. rewrite (src_convert_to_camelcase h k Hk). cbn [bind apply_key].
+      rewrite (py_setitem_enc acc _ (Key k)). reflexivity.
+Qed.
+
+(* ------------------------------------------------------------------ outside the domain *)
+
+(* the side condition is needed: on non-ASCII text the hand model treats every character as uncased, while the
+   source calls str.upper() / str.title(), whose Unicode case mappings the operator library declines to predict
+   (the real library: [{"a": "\u00e9"}, TO_LOWERCASE] gives "\u00c9"; the hand model keeps "\u00e9") *)
+Example non_ascii_outside_domain :
+  apply_key MLower [233] = Key [233] /\
+  forall h, Src_apply_mapper h enc_lower (PStr (s2p "a")) (enc_amap [(s2p "a", Key [233])]) (PBool true) (PBool false)
+            = Raise Unmodelled.
+Proof. split; [reflexivity|intros h; reflexivity]. Qed.
+
 Print Assumptions src_convert_to_camelcase.
 Print Assumptions src_enum_mappers_members.
 Print Assumptions src_apply_mapper.
@@ -1429,3 +1528,5 @@ Print Assumptions src_set_base_mapper_no_op.
 Print Assumptions src_aggregate_serialization_mappers.
 Print Assumptions src_aggregate_deserialization_mappers.
 Print Assumptions src_aggregate_class_list.
+Print Assumptions src_get_flat_resolved_mapper.
+Print Assumptions non_ascii_outside_domain.
